@@ -27,4 +27,7 @@ def run(F, tier):
     rep.sample({"U1": "char predicate call sites in the closure of parsers", "count": rep.rules["U1"]["instances"]})
     accept.u6(rep, F, "fields")
     accept.u7(rep, F, "fields")
+    # code tables written as `match` (bank operation / payment method / transaction type codes)
+    from . import v4
+    v4.v3(rep, F, only=r"^fn:fields::field_utils::")
     return rep
